@@ -7,7 +7,7 @@ import asyncio as _real_asyncio
 import importlib
 import json as _json
 
-from symcheck.env import dump, same_json, HarnessError
+from symcheck.env import dump, same_json, HarnessError, need
 from harness.stdio_fake import Rec
 from harness.h_C02 import grammar
 import httpx as _httpx
@@ -343,7 +343,11 @@ def _reset(chunks, end):
 
 
 def _transport(timeout=5.0):
-    return SSE.SSETransport(SPAR.SSEParameters(url="http://srv", timeout=timeout))
+    t = SSE.SSETransport(SPAR.SSEParameters(url="http://srv", timeout=timeout))
+    need(t, "_incoming_send", "_message_url", "_send_client", "_sse_response", "_pending_requests", "_process_sse_stream",
+         "_handle_endpoint_event", "_handle_message_event", "_send_message_via_http", "_handle_sse_connection", "_cleanup")
+    need(SSE, "httpx", "json", "asyncio")
+    return t
 
 
 # ------------------------------------------------------------------ (a) chunk independence of the event-stream parser
